@@ -279,6 +279,56 @@ Section Api.
              | Some h2 => bindv (compress_markings e h2) (fun c h3 => new_version_gm obj c h3)
              end).
 
+  (* Python == on two values, by deep value *)
+  Definition val_eqb (h : heap) (a b : val) : bool :=
+    match value FUEL h a, value FUEL h b with
+    | Some x, Some y => tree_eqb x y
+    | _, _ => false
+    end.
+
+  (* remove_markings: `to_remove.append({'marking_ref': m, 'selectors': selectors})` *)
+  Fixpoint remove_loop (t : nat) (sel : val) (ms : list val) (h : heap) : option heap :=
+    match ms with
+    | [] => Some h
+    | m :: rest =>
+      let key := match m with VA (AStr s) => if is_marking_id s then u "marking_ref" else u "lang" | _ => u "lang" end in
+      let (h1, d) := alloc h (NDict [(key, m); (u "selectors", sel)]) in
+      match append_item h1 t (VR d) with
+      | Some h2 => remove_loop t sel rest h2
+      | None => None
+      end
+    end.
+
+  Definition granular_remove (obj marking selectors : val) (h : heap) : heap * res :=
+    let ms := map (marking_id h) (convert_to_list marking h) in
+    let old := get_or_none h obj (u "granular_markings") in
+    if negb (truthy h old) then (h, RVal obj)
+    else
+      bindv (expand_markings old h) (fun e h1 =>
+        (* convert_to_list(selectors): the caller's list itself, or a new one-element list *)
+        let (h2, sel) := match list_items h1 selectors with
+                         | Some _ => (h1, selectors)
+                         | None => let (hh, l) := alloc h1 (NList [selectors]) in (hh, VR l)
+                         end in
+        let (h3, t) := alloc h2 (NList []) in
+        match remove_loop t sel ms h3 with
+        | None => (h3, RExc "TypeError")
+        | Some h4 =>
+          (* build_granular_marking(to_remove)['granular_markings'] = expand_markings(to_remove) *)
+          bindv (expand_markings (VR t) h4) (fun r h5 =>
+            let ems := match list_items h5 e with Some xs => xs | None => [] end in
+            let rms := match list_items h5 r with Some xs => xs | None => [] end in
+            if negb (existsb (fun x => existsb (val_eqb h5 x) ems) rms) then (h5, RExc "MarkingNotFoundError")
+            else
+              (* `[m for m in granular_markings if m not in remove]` *)
+              let (h6, k) := alloc h5 (NList (filter (fun m => negb (existsb (val_eqb h5 m) rms)) ems)) in
+              bindv (compress_markings (VR k) h6) (fun c h7 => new_version_gm obj c h7))
+        end).
+
+  (* set_markings = add_markings(clear_markings(obj, selectors), marking, selectors) *)
+  Definition granular_set (obj marking selectors : val) (h : heap) : heap * res :=
+    bindv (granular_clear obj selectors h) (fun o h1 => granular_add o marking selectors h1).
+
   (* ---------------- stix2/markings/object_markings.py ---------------- *)
   Fixpoint dedupe_atoms (vs : list val) (seen : list ustring) : list val :=
     match vs with
@@ -307,6 +357,49 @@ Section Api.
       let keep := filter (fun v => match v with VA (AStr s) => negb (mem_ustr s ms) | _ => true end) cur in
       if is_nil keep then new_version obj [(u "object_marking_refs", VA ANone)] h
       else let (h1, l) := alloc h (NList keep) in new_version obj [(u "object_marking_refs", VR l)] h1.
+
+  (* set_markings = add_markings(clear_markings(obj), marking) *)
+  Definition object_set (obj marking : val) (h : heap) : heap * res :=
+    bindv (object_clear obj h) (fun o h1 => object_add o marking h1).
+
+  (* ---------------- stix2/markings/__init__.py: dispatch on `selectors is None` ---------------- *)
+  Inductive api_fn := ASet | ARemove | AAdd | AClear | AGet | AIsMarked.
+
+  Definition is_none (v : val) : bool := match v with VA ANone => true | _ => false end.
+
+  Definition api_markings (fn : api_fn) (obj marking selectors : val) (h : heap) : heap * res :=
+    match fn with
+    | ASet => if is_none selectors then object_set obj marking h else granular_set obj marking selectors h
+    | ARemove => if is_none selectors then object_remove obj marking h else granular_remove obj marking selectors h
+    | AAdd => if is_none selectors then object_add obj marking h else granular_add obj marking selectors h
+    | AClear => if is_none selectors then object_clear obj h else granular_clear obj selectors h
+    | AGet =>
+      (* object level: `obj.get('object_marking_refs', [])` -- the object's OWN list;
+         granular level: `list(set(results))` (which ids: not modelled, only that the list is new) *)
+      if is_none selectors
+      then match mapping_get h obj (u "object_marking_refs") with
+           | Some l => (h, RVal l)
+           | None => let (h1, l) := alloc h (NList []) in (h1, RVal (VR l))
+           end
+      else let (h1, l) := alloc h (NList []) in (h1, RVal (VR l))
+    | AIsMarked => (h, RVal (VA (ABool false)))     (* a bool (which one: not modelled) *)
+    end.
+
+  (* ---------------- stix2/versioning.py: remove_custom_stix ---------------- *)
+  Definition remove_custom_stix (obj : val) (h : heap) : heap * res :=
+    match mapping_entries h obj with
+    | None => (h, RExc "TypeError")
+    | Some m =>
+      match assoc (u "type") m with
+      | Some (VA (AStr ty)) =>
+        if ustr_prefix (u "x-") ty then (h, RVal (VA ANone))
+        else
+          let custom := filter (fun kv => ustr_prefix (u "x_") (fst kv)) m in
+          if is_nil custom then (h, RVal obj)
+          else new_version obj (map (fun kv => (fst kv, VA ANone)) custom) h
+      | _ => (h, RExc "KeyError")
+      end
+    end.
 
   (* ---------------- stix2/environment.py: ObjectFactory ---------------- *)
   Definition factory_new (kw : val) (list_append : bool) (h : heap) : heap * res :=
